@@ -7,7 +7,7 @@ use crate::model::{MV, json};
 use proptest::prelude::*;
 use serde::{Deserialize, Serialize};
 
-pub const RULE: &str = "programs from a recursion grammar: shape in {self, mutual (2 and 3 functions), via / where / map / filter / reduce callback, the callee handed straight to into / where / element-wise via (no call expression in the cycle), do-block body (also with a captured name and a helper defined after its user), anonymous cycle through a record method / a list element / self-application, a named function made in a factory's do-block and used after the block has ended} x per-call expression nesting 1..32 of kind {arithmetic chain, list nesting, record nesting, conditionals, call-argument nesting, mixture, field / index access under ??, operand of a record / list / argument spread, right operand of and / or / && whose left operand already decides}, each also in a source that starts with a non-ASCII comment, x {unbounded, bounded with depth 100..900 for plain shapes}; enumerated: every shape x nesting {1, 2, 4, 8} x 2 kinds (runaway and 200-300 deep) and nesting {16, 24, 32} x all kinds (runaway; 900 deep for plain shapes); random beyond that; single-line shapes are also typed statement by statement into the interactive CLI on a pseudo-terminal (same 8 MiB stack limit). Each is run in the release `blots` binary built from the working tree with RLIMIT_STACK = 8 MiB (the default main-thread stack), RLIMIT_AS 6 GiB and a 60 s timeout. Unbounded programs must exit with status 1 and report `maximum call depth`; a signal or exit 101 is a violation. Bounded programs must exit 0 with the arithmetically expected value. Non-trivial = per-call nesting >= 2 or a callback / mutual / anonymous shape; distinct by program text.";
+pub const RULE: &str = "programs from a recursion grammar: shape in {self, mutual (2 and 3 functions), via / where / map / filter / reduce callback, the callee handed straight to into / where / element-wise via (no call expression in the cycle), do-block body (also with a captured name and a helper defined after its user), anonymous cycle through a record method / a list element / self-application, a named function made in a factory's do-block and used after the block has ended, the recursive call as a do-block statement whose value is not used} x per-call expression nesting 1..32 of kind {arithmetic chain, list nesting, record nesting, conditionals, call-argument nesting, mixture, field / index access under ??, operand of a record / list / argument spread, right operand of and / or / && whose left operand already decides}, each also in a source that starts with a non-ASCII comment, x {unbounded, bounded with depth 100..900 for plain shapes}; enumerated: every shape x nesting {1, 2, 4, 8} x 2 kinds (runaway and 200-300 deep) and nesting {16, 24, 32} x all kinds (runaway; 900 deep for plain shapes); random beyond that; single-line shapes are also typed statement by statement into the interactive CLI on a pseudo-terminal (same 8 MiB stack limit). Each is run in the release `blots` binary built from the working tree with RLIMIT_STACK = 8 MiB (the default main-thread stack), RLIMIT_AS 6 GiB and a 60 s timeout. Unbounded programs must exit with status 1 and report `maximum call depth`; a signal or exit 101 is a violation. Bounded programs must exit 0 with the arithmetically expected value. Non-trivial = per-call nesting >= 2 or a callback / mutual / anonymous shape; distinct by program text.";
 pub const ASSUMPTIONS: &[&str] = &[
     "only the real binary decides; a timeout or memory-limit hit is counted as inconclusive, never as a violation",
     "error-swallowing sort_by callbacks are excluded (they turn runaway recursion into exponential work and are not in the statement's list)",
@@ -126,6 +126,15 @@ pub fn program(c: &Case) -> (String, Option<f64>) {
             per_level = a;
             src.push_str(&format!("mk = () => do {{\n  loop_fn = n => {}\n  return loop_fn\n}}\noutput r = mk()({})\n", b, start));
         }
+        17 => {
+            // the recursive call is a statement of a do-block whose value is not used
+            let (b, a) = body("f");
+            per_level = a;
+            match c.bounded {
+                None => src.push_str(&format!("f = n => do {{\n  {}\n  return n\n}}\noutput r = f({})\n", b, start)),
+                Some(_) => src.push_str(&format!("f = n => do {{\n  0\n  \"unused\"\n  return {}\n}}\noutput r = f({})\n", b, start)),
+            }
+        }
         9 => {
             let (b, a) = body("counter.next");
             per_level = a;
@@ -172,7 +181,7 @@ impl Check for Recursion {
     }
     fn run(&self, c: &Case, ctx: &mut Ctx) -> Outcome {
         let (src, expected) = program(c);
-        let shape = ["self", "mutual2", "mutual3", "via", "where", "map", "filter", "reduce", "do-block", "record-method", "list-element", "self-application", "into", "where-direct", "zip-via", "late-helper-do-block", "escaped-do-block-function"][c.shape as usize % 17];
+        let shape = ["self", "mutual2", "mutual3", "via", "where", "map", "filter", "reduce", "do-block", "record-method", "list-element", "self-application", "into", "where-direct", "zip-via", "late-helper-do-block", "escaped-do-block-function", "bare-do-block-statement"][c.shape as usize % 18];
         let bucket = match c.nesting {
             0..=1 => "nesting1",
             2..=4 => "nesting2-4",
@@ -263,10 +272,10 @@ impl Recursion {
 }
 
 pub fn strategy() -> BoxedStrategy<Case> {
-    (0u8..17, prop_oneof![3 => 1u8..5, 2 => 5u8..13, 1 => 13u8..33], 0u8..19, prop::option::weighted(0.35, 100u16..900))
+    (0u8..18, prop_oneof![3 => 1u8..5, 2 => 5u8..13, 1 => 13u8..33], 0u8..19, prop::option::weighted(0.35, 100u16..900))
         .prop_map(|(shape, nesting, kind, bounded)| {
             // bounded variants: plain shapes only (callback shapes consume several call levels per step)
-            let bounded = if matches!(shape, 0 | 1 | 2 | 8 | 9 | 10 | 11 | 12 | 15 | 16) { bounded } else { bounded.map(|d| d.min(250)) };
+            let bounded = if matches!(shape, 0 | 1 | 2 | 8 | 9 | 10 | 11 | 12 | 15 | 16 | 17) { bounded } else { bounded.map(|d| d.min(250)) };
             Case { shape, nesting, kind, bounded, repl: false }
         })
         .boxed()
@@ -275,7 +284,7 @@ pub fn strategy() -> BoxedStrategy<Case> {
 pub fn run(ctx: &mut Ctx) {
     // every shape x a few nestings, unbounded and bounded(300)
     let mut fixed = Vec::new();
-    for shape in 0..17u8 {
+    for shape in 0..18u8 {
         // the recursive call as the operand of a record / list / argument spread
         for nesting in [1u8, 3] {
             for kind in [16u8, 17, 18] {
@@ -297,7 +306,7 @@ pub fn run(ctx: &mut Ctx) {
             for kind in 0u8..6 {
                 fixed.push(Case { shape, nesting, kind, bounded: None, repl: false });
             }
-            if matches!(shape, 0 | 1 | 2 | 8 | 9 | 10 | 11 | 12 | 15 | 16) {
+            if matches!(shape, 0 | 1 | 2 | 8 | 9 | 10 | 11 | 12 | 15 | 16 | 17) {
                 fixed.push(Case { shape, nesting, kind: 0, bounded: Some(900), repl: false });
                 fixed.push(Case { shape, nesting, kind: 5, bounded: Some(900), repl: false });
             }
